@@ -48,34 +48,36 @@ type rEv struct {
 }
 
 type rCfg struct {
-	Name        string `json:"name"`
-	Mode        string `json:"mode"`
-	RateMode    bool   `json:"rate_mode"`
-	Conc        int    `json:"conc"`
-	MaxIter     int64  `json:"maxiter"`
-	MaxDurUs    int64  `json:"maxdur_us"`
-	TrigDurUs   int64  `json:"trigdur_us"` // trigger's own total duration (0 = unlimited)
-	IntervalUs  int64  `json:"interval_us"`
-	WaitUs      int64  `json:"wait_us"`
-	CancelUs    int64  `json:"cancel_us"` // 0 = never cancelled
-	SetupFail   bool   `json:"setup_fail"`
-	SetupMode   string `json:"setup_mode"`
-	SetupUs     int64  `json:"setup_us"`      // setup sleeps this long
-	CleanupUs   int64  `json:"cleanup_us"`    // every iteration cleanup sleeps this long
-	Wedge       bool   `json:"wedge"`         // negative replay of RunLifecycle's wedge: park a due progress tick until main is inside Summary
-	StopDelayUs int64  `json:"stop_delay_us"` // the hook parks the pool's stop goroutine this long at tp.stop.flagged
-	PoolOnly    bool   `json:"pool_only"`     // cooperative pool schedules: no Run.Do around the pool
-	Light       bool   `json:"light"`         // contention runs: bodies only record their id lock-free; no end/cleanup events
-	Blockers    int    `json:"blockers"`
-	Ample       bool   `json:"ample"` // concurrency >= every tick and instant bodies: nothing can be pending at a tick
-	Rendezvous  bool   `json:"rendezvous"`
-	StallEval   int    `json:"stall_eval"` // the trigger goroutine is held for stall_us right after this evaluation (1-based; 0 = never)
-	StallUs     int64  `json:"stall_us"`
-	MetricsRuns int    `json:"metrics_runs"`
-	RunIndex    int    `json:"run_index"`
-	Labels      string `json:"labels"`
-	Args        string `json:"args"`
-	FileStages  int    `json:"file_stages"`
+	Name            string `json:"name"`
+	Mode            string `json:"mode"`
+	RateMode        bool   `json:"rate_mode"`
+	Conc            int    `json:"conc"`
+	MaxIter         int64  `json:"maxiter"`
+	MaxDurUs        int64  `json:"maxdur_us"`
+	TrigDurUs       int64  `json:"trigdur_us"` // trigger's own total duration (0 = unlimited)
+	IntervalUs      int64  `json:"interval_us"`
+	WaitUs          int64  `json:"wait_us"`
+	CancelUs        int64  `json:"cancel_us"` // 0 = never cancelled
+	SetupFail       bool   `json:"setup_fail"`
+	SetupMode       string `json:"setup_mode"`
+	SetupUs         int64  `json:"setup_us"`      // setup sleeps this long
+	CleanupUs       int64  `json:"cleanup_us"`    // every iteration cleanup sleeps this long
+	Wedge           bool   `json:"wedge"`         // negative replay of RunLifecycle's wedge: park a due progress tick until main is inside Summary
+	StopDelayUs     int64  `json:"stop_delay_us"` // the hook parks the pool's stop goroutine this long at tp.stop.flagged
+	PoolOnly        bool   `json:"pool_only"`     // cooperative pool schedules: no Run.Do around the pool
+	Light           bool   `json:"light"`         // contention runs: bodies only record their id lock-free; no end/cleanup events
+	Blockers        int    `json:"blockers"`
+	Ample           bool   `json:"ample"` // concurrency >= every tick and instant bodies: nothing can be pending at a tick
+	Rendezvous      bool   `json:"rendezvous"`
+	StageEndDelayAt int    `json:"stage_end_delay_at"` // file mode: the stage loop is held for stage_end_delay_us when this stage (1-based) ends
+	StageEndDelayUs int64  `json:"stage_end_delay_us"`
+	StallEval       int    `json:"stall_eval"` // the trigger goroutine is held for stall_us right after this evaluation (1-based; 0 = never)
+	StallUs         int64  `json:"stall_us"`
+	MetricsRuns     int    `json:"metrics_runs"`
+	RunIndex        int    `json:"run_index"`
+	Labels          string `json:"labels"`
+	Args            string `json:"args"`
+	FileStages      int    `json:"file_stages"`
 }
 
 type rTrace struct {
@@ -102,24 +104,27 @@ type rCase struct {
 }
 
 type rRec struct {
-	mu        sync.Mutex
-	t0        time.Time
-	ev        []rEv
-	returned  atomic.Bool
-	afterS    atomic.Int64
-	afterE    atomic.Int64
-	afterP    atomic.Int64
-	stopG     map[int64]bool
-	envKeys   []string
-	stageIdx  int
-	stageEnv  []string
-	stopDelay time.Duration
-	stallEval int
-	stallUs   int64
-	nEval     atomic.Int64
-	wedge     bool
-	atSummary chan struct{}
-	sumOnce   sync.Once
+	mu              sync.Mutex
+	t0              time.Time
+	ev              []rEv
+	returned        atomic.Bool
+	afterS          atomic.Int64
+	afterE          atomic.Int64
+	afterP          atomic.Int64
+	stopG           map[int64]bool
+	envKeys         []string
+	stageIdx        int
+	stageEnv        []string
+	stopDelay       time.Duration
+	firstStageUs    atomic.Int64 // when the first stage of a file-mode run began (0 = not yet)
+	stageEndDelayAt int
+	stageEndDelayUs int64
+	stallEval       int
+	stallUs         int64
+	nEval           atomic.Int64
+	wedge           bool
+	atSummary       chan struct{}
+	sumOnce         sync.Once
 }
 
 func (r *rRec) us() int64 { return time.Since(r.t0).Microseconds() }
@@ -212,8 +217,19 @@ func (r *rRec) hook(point string, who any, n int64) {
 		if r.stageIdx >= 1 && r.stageIdx <= len(r.stageEnv) {
 			want = r.stageEnv[r.stageIdx-1]
 		}
-		r.ev = append(r.ev, rEv{K: "stage", A: int64(r.stageIdx), B: b, C: r.us(), D: n / 1000, S: strings.Join(env, ";"), S2: want})
+		// d = microseconds since the first stage began (the trigger deadline runs from before that moment)
+		r.firstStageUs.CompareAndSwap(0, r.us()+1)
+		since := r.us() - r.firstStageUs.Load()
+		if since < 0 {
+			since = 0
+		}
+		r.ev = append(r.ev, rEv{K: "stage", A: int64(r.stageIdx), B: b, C: r.us(), D: since, S: strings.Join(env, ";"), S2: want})
+		hold := b == 0 && r.stageEndDelayAt > 0 && r.stageIdx == r.stageEndDelayAt
 		r.mu.Unlock()
+		if hold {
+			// schedule control: the stage loop is starved between the end of this stage and its test of the context
+			time.Sleep(time.Duration(r.stageEndDelayUs) * time.Microsecond)
+		}
 	}
 }
 
@@ -305,7 +321,7 @@ func runOne(c *ctx, rc rCase, m *metrics.Metrics) rTrace {
 	tr := rTrace{Cfg: rc.cfg}
 	rec := &rRec{t0: time.Now(), stopG: map[int64]bool{}, envKeys: rc.envKeys, stageEnv: rc.stageEnv,
 		stopDelay: time.Duration(rc.cfg.StopDelayUs) * time.Microsecond, wedge: rc.cfg.Wedge, atSummary: make(chan struct{}),
-		stallEval: rc.cfg.StallEval, stallUs: rc.cfg.StallUs}
+		stallEval: rc.cfg.StallEval, stallUs: rc.cfg.StallUs, stageEndDelayAt: rc.cfg.StageEndDelayAt, stageEndDelayUs: rc.cfg.StageEndDelayUs}
 	verifhook.Install(rec.hook)
 	defer verifhook.Install(nil)
 	var evalMu sync.Mutex
@@ -938,6 +954,29 @@ stages:
 - duration: 100ms
   rate: 2/20ms
 `, 4, nil, []string{"", "", "", ""}, 5000*ms, 4, 140000)
+	}
+	// max-duration equal to a stage boundary: triggering ends inside the 20 ms pause between two stages, the stage
+	// after the boundary (users: its workers start iterations at once) must not begin
+	for _, nxt := range []string{"  mode: users\n  concurrency: 4\n", "  rate: 4/10ms\n"} {
+		fileCase("file-deadline-in-gap", `scenario: scn
+limits:
+  max-duration: 200ms
+  concurrency: 4
+  max-iterations: 0
+  ignore-dropped: true
+default:
+  mode: constant
+  distribution: none
+  jitter: 0
+stages:
+- duration: 100ms
+  rate: 2/20ms
+- duration: 100ms
+  rate: 2/20ms
+- duration: 300ms
+`+nxt, 3, nil, []string{"", "", ""}, 200*ms, 4, 3000)
+		cases[len(cases)-1].cfg.StageEndDelayAt = 2
+		cases[len(cases)-1].cfg.StageEndDelayUs = 150 * ms
 	}
 	fileCase("file-cut-short", `scenario: scn
 limits:
